@@ -5,7 +5,7 @@
    row pointer never written, NULL dereference. *)
 From Coq Require Import Floats.
 From mathcomp Require Import all_ssreflect.
-From LS Require Import NumOps F64Ops Containers ContSpec ContSpec2 ContSpec3 Strings StringsSpec.
+From LS Require Import NumOps F64Ops Containers ContSpec ContSpec2 ContSpec3 ContSpec4 Strings StringsSpec.
 Set Implicit Arguments. Unset Strict Implicit. Unset Printing Implicit Defensive.
 
 Section AnyNumbers.
@@ -78,6 +78,18 @@ Theorem C14_append_row m r c A v l : mrep m r c A -> vrep v l ->
   exists2 m', m_approw m v = ROk m' &
     mrep m' r.+1 nc (map (fun row => row ++ nseq (nc - c) k0) A ++ [:: l ++ nseq (nc - size l) k0]).
 Proof. exact: m_approw_ok. Qed.
+(* MatrixSort / MatrixReverseSort (exchange sort, rows exchanged cell by cell) on ANY matrix and any key column in range: no memory
+   error whatever the cells hold and whatever the comparisons answer; same shape, same row-pointer array, every row still fully
+   written (order and permutation of the rows: C11_sort_perm / C11_sort_sorted) *)
+Theorem C14_matrix_sort_safe rv (m : @mat K) r c (A : seq (seq K)) col : mrep m r c A -> col < c ->
+  exists2 m', m_sort rv m col = ROk m' &
+    [/\ mrow m' = r, mcol m' = c &
+        match mdata m, mdata m' with
+        | Some p, Some p' => size p' = size p /\ rowsfull p' r c
+        | None, None => r = 0
+        | _, _ => False
+        end].
+Proof. exact: m_sort_safe. Qed.
 End AnyNumbers.
 
 (* the defect found and repaired (F10): before the repair MatrixAppendCol read past a column
@@ -127,6 +139,7 @@ Proof. by vm_compute. Qed.
 End Texts.
 
 Print Assumptions C14_vector_histories.
+Print Assumptions C14_matrix_sort_safe.
 Print Assumptions C14_matrix_histories.
 Print Assumptions C14_matrix_histories_all.
 Print Assumptions C14_matrix_copy.
